@@ -46,7 +46,10 @@ def _model(files, privacy):
     return fixtures.build_system(mods, rules)
 
 
-TWO_ROOTS = {'alpha.py': '"""Alpha. See L{beta.B}."""\nclass A: pass\n', 'beta.py': 'class B:\n    def m(self): pass\n'}
+TWO_ROOTS = {'alpha.py': '"""Alpha. See L{beta.B}."""\nclass A: pass\n', 'beta.py': 'class B:\n    def m(self): pass\n',
+             # a package with an entry-point module (private by Module.privacyClass whatever the rules say) and a private sub-module
+             'gamma/__init__.py': '"""Gamma."""\n', 'gamma/__main__.py': '"""Entry point."""\ndef main(): "doc"\n',
+             'gamma/_inner.py': 'def helper(): "doc"\nclass _P:\n    def pub(self): "doc"\n'}
 
 
 def check_site(case, which):
@@ -143,6 +146,11 @@ def check_site(case, which):
                 if t in hidden:
                     fails.append({'observed': f'undoccedSummary.html: hidden {t} is listed', 'required': 'no row in any index',
                                   'class': f'hidden-entry:{t}@undoccedSummary.html', 'hidden': t})
+            # the search document of a private object says so (the search page leaves private results out unless asked)
+            for n, o in objs.items():
+                if _vis(o) and n in idx['search_privacy'] and (idx['search_privacy'][n] == 'PRIVATE') != (o.privacyClass is model_privacy_private()):
+                    fails.append({'observed': f'search document of {n} records privacy {idx["search_privacy"][n]}, the object is {o.privacyClass.name}',
+                                  'required': 'the search document carries the private marker exactly for private objects', 'class': 'search-privacy'})
             for page, info in idx['pages'].items():
                 # 'overrides' / 'overridden in' / 'known subclasses' notes list objects: none of them may be hidden
                 for e in info['entries']:
